@@ -580,6 +580,44 @@ func dialPair(bad, good string, badFirst bool) *engine.Scenario {
 	return sc
 }
 
+// firstUse: the very first validations of a process, two at the same time (every execution runs in
+// a process of its own, so that whatever the policy builds lazily on first use is not built yet):
+// an address of the last private block and one of the first are both refused, a public one is
+// accepted, whatever the interleaving.
+func firstUse() *engine.Scenario {
+	var errs [3]error
+	sc := &engine.Scenario{Name: "first-use", Fresh: true}
+	sc.Body = func() {
+		errs = [3]error{}
+		ips := []net.IP{net.ParseIP("100.64.0.1"), net.ParseIP("10.1.2.3"), net.ParseIP("93.184.216.34")}
+		var ts []*vrt.Thread
+		for i := 0; i < 2; i++ {
+			i := i
+			ts = append(ts, vrt.Spawn(fmt.Sprintf("validate%d", i), func() { errs[i] = onet.RequirePublicIP(ips[i]) }))
+		}
+		vrt.Join(ts...)
+		errs[2] = onet.RequirePublicIP(ips[2])
+	}
+	sc.Check = func(x *vrt.Exec) (string, bool, []*engine.Finding) {
+		fs := hk.Generic(x, hk.Opts{})
+		if len(fs) == 0 {
+			if errs[0] == nil {
+				fs = append(fs, &engine.Finding{Sig: "policy-accepts-nonpublic{first-use}", Msg: "one of the first two validations of the process, made at the same time, accepted 100.64.0.1 (CGNAT)"})
+			}
+			if errs[1] == nil {
+				fs = append(fs, &engine.Finding{Sig: "policy-accepts-nonpublic{first-use}", Msg: "one of the first two validations of the process, made at the same time, accepted 10.1.2.3 (RFC 1918)"})
+			}
+			if errs[2] != nil {
+				fs = append(fs, &engine.Finding{Sig: "policy-rejects-public{first-use}", Msg: "93.184.216.34 rejected: " + errs[2].Error()})
+			}
+		}
+		return fmt.Sprint(errs[0] == nil, errs[1] == nil, errs[2] == nil), true, fs
+	}
+	return sc
+}
+
+func init() { engine.FreshRegistry["first-use"] = firstUse }
+
 func dialPairs() []*engine.Scenario {
 	return []*engine.Scenario{
 		dialPair("10.1.2.3", "93.184.216.34", true),
@@ -607,6 +645,7 @@ func init() {
 		for _, sc := range dialPairs() {
 			engine.ExploreS(ctx, sc, engine.SConfig{Bound: bound, Shard: ctx.Shard, NShards: ctx.NShards, Deadline: ctx.Deadline})
 		}
+		engine.ExploreS(ctx, firstUse(), engine.SConfig{Bound: bound, Shard: ctx.Shard, NShards: ctx.NShards, Deadline: ctx.Deadline})
 		policyV6(ctx)
 		policyV4(ctx)
 	})
@@ -614,6 +653,9 @@ func init() {
 		sub := &engine.Ctx{Res: engine.NewResult("C05", ctx.Tier)}
 		if strings.HasPrefix(rp.Unit, "dial-pair") {
 			return engine.ReplayScenario(dialPairs(), rp)
+		}
+		if strings.HasPrefix(rp.Unit, "first-use") {
+			return engine.ReplayScenario([]*engine.Scenario{firstUse()}, rp)
 		}
 		switch rp.Unit {
 		case "policy-v4", "policy-v6":
